@@ -9,7 +9,8 @@ import hj_common as H
 
 THEOREMS = ['C08_replay', 'C08_replay_of_run', 'C08_log_is_accepted_calls', 'C08_refused_calls_are_noise', 'accepted_eq_iff',
             'C08_ranked_order_unobservable', 'C08_ranked_order_unobservable_obs', 'C08_interleaving', 'cardLog_reachable',
-            'C08_cards_are_the_log', 'C08_log_bibs_registered', 'C08_round_robin_import']
+            'C08_cards_are_the_log', 'C08_log_bibs_registered', 'C08_round_robin_import', 'freshOrRanked_reachable',
+            'C08_pass_is_only_a_mark', 'C08_passes_can_be_dropped', 'C08_card_import']
 
 def obs(c, passes_aside=False):
     """state and standings: state, heights, (bib, place, best, card); optionally explicit pass marks and trailing blanks aside"""
@@ -28,6 +29,11 @@ def accepted_ops(c):
         elif a == 'set_bar_height': ops.append(('bar', int(round(v * 100))))
         else: ops.append(('trial', int(v), {'cleared': 'o', 'failed': 'x', 'passed': 'p', 'retired': 'r'}[a]))
     return ops
+
+def show_op(op):
+    if op[0] == 'add': return 'a%d' % op[1]
+    if op[0] == 'bar': return 'b%d' % op[1]
+    return '%s%d' % ('-' if op[2] == 'p' else op[2], op[1])
 
 def merges(seqs, rng, limit):
     """interleavings of the per-athlete sequences (all if at most `limit`, else a seeded sample)"""
@@ -114,6 +120,15 @@ def run(ctx):
             c3 = athlib.HighJumpCompetition.from_matrix(m)
             if obs(c3, True) != obs(c, True):
                 fail('from_matrix(to_matrix()) reproduces %r' % (obs(c, True),), repr(obs(c3, True)), 'card round trip differs; card %r' % (m,))
+            if i % 3 != 2:
+                # the calls the import made (its own log) against the model of the import loop (`imported`, the subject of C08_card_import)
+                hdr = list(m[0]); bi = hdr.index('bib')               # no 'order' column in the export: the import takes the rows in card order
+                rows = sorted(m[1:], key=lambda r: r[hdr.index('order')]) if 'order' in hdr else m[1:]
+                order = [int(r[bi]) for r in rows]
+                lines.append('hj\tnew'); expect.append(None)
+                for op in hist: lines.append(H.op_line(op)); expect.append(None)
+                lines.append('hj\timport\t' + ','.join(map(str, order)))
+                expect.append(('imp', ' '.join(show_op(op) for op in accepted_ops(c3)), H.fmt_ops(hist)))
         except Exception as e:
             fail('from_matrix(to_matrix()) succeeds', '%s: %s' % (type(e).__name__, e), 'card round trip raised')
         stats['roundtrips'] += 1
@@ -160,13 +175,21 @@ def run(ctx):
                     lines.append(H.op_line(alt[-1])); expect.append(out + '|' + H.snap(cm))
             if i < 3: ctx.sample({'history': H.fmt_ops(hist), 'height_permuted': hist[k], 'athletes_at_height': len(by)})
     got = vlib.driver(lines)
-    nd = 0
+    nd = 0; ni = 0
     for e, g in zip(expect, got):
         if e is None: continue
+        if isinstance(e, tuple):
+            ctx.count(1, 'imports_compared_with_model')
+            if e[1] != g:
+                ni += 1
+                if ni <= 3: ctx.oblig('correspondence:calls made by from_matrix vs Lean `imported`', 'correspondence', False,
+                                      'history %s: from_matrix(to_matrix()) called %s | model %s' % (e[2], e[1], g))
+            continue
         ctx.count(1, 'interleavings_compared_with_model')
         if e != g:
             nd += 1
             if nd <= 3: ctx.oblig('correspondence:interleaved history vs Lean HJ model', 'correspondence', False, 'implementation %s | model %s' % (e, g))
     if nd == 0: ctx.oblig('correspondence:interleaved history vs Lean HJ model', 'correspondence', True)
+    if ni == 0: ctx.oblig('correspondence:calls made by from_matrix vs Lean `imported`', 'correspondence', True)
     ctx.stats.update(stats)
     ctx.count(stats['prefixes'] + stats['roundtrips'] + stats['interleavings'], 'replays_roundtrips_interleavings_on_implementation')
